@@ -125,6 +125,8 @@ impl NodeDrive {
                     let record_size = write_value(&mut values_file, &value, ValueStatus::Ok);
 
                     if !reclame_space {
+                        // The value must be on disk before the key record points to it
+                        values_file.flush().unwrap();
                         // In place upate in key file
                         update_key(
                             &mut keys_file_write,
@@ -142,6 +144,7 @@ impl NodeDrive {
                         );
                         // Append key file
                     } else {
+                        values_file.flush().unwrap();
                         let key_size = write_key(&mut keys_file, &key, &value, value_addr);
                         db.set_value_as_ok(
                             &key,
@@ -175,9 +178,10 @@ impl NodeDrive {
             }
         }
 
+        // Values first, a key record must never point to a value that is not on disk yet
+        values_file.flush().unwrap();
         keys_file.flush().unwrap();
         keys_file_write.flush().unwrap();
-        values_file.flush().unwrap();
 
         write_metadata_file(db_name, db);
         log::debug!("snapshoted {} keys", changed_keys);
@@ -215,14 +219,12 @@ fn update_key(
         value_addr,
         start_at
     );
-    //4 bytes
-    keys_file
-        .write_at(&version.to_le_bytes(), start_at)
-        .unwrap();
-    //8 bytes
-    keys_file
-        .write_at(&value_addr.to_le_bytes(), start_at + VERSION_SIZE as u64)
-        .unwrap();
+    // version (4 bytes) + value address (8 bytes) in a single write, so a crash never leaves a
+    // record with the new version pointing to the old value (or the other way around)
+    let mut record = [0; VERSION_SIZE + ADDR_SIZE];
+    record[..VERSION_SIZE].copy_from_slice(&version.to_le_bytes());
+    record[VERSION_SIZE..].copy_from_slice(&value_addr.to_le_bytes());
+    keys_file.write_at(&record, start_at).unwrap();
 }
 
 fn get_key_file_append_mode(db_name: &String, reclame_space: bool) -> BufWriter<File> {
@@ -296,6 +298,8 @@ fn write_new_key_value(
 ) -> (u64, u64) {
     // Append value file
     let record_size = write_value(values_file, value, ValueStatus::Ok);
+    // The value must be on disk before the key record that points to it
+    values_file.flush().unwrap();
     log::debug!(
         "Write key: {}, addr: {} value_addr: {} ",
         key,
